@@ -57,6 +57,9 @@ public:
   {
     version_int = get_version_from_string(COLVARS_VERSION);
     engine_name_ = "verif";
+    // serial evaluation unless a check (C12) asks otherwise: with the default (smp cvcs) every one of the 16
+    // worker processes would start a 16-thread OpenMP team
+    smp_mode = smp_mode_t::none;
     b_simulation_running = true;
     updated_masses_ = updated_charges_ = true;
     angstrom_value_ = 1.0;
